@@ -21,7 +21,8 @@ from . import c04_s2s as S
 
 ANCHORS = S.ANCHORS
 
-TMAPS = [[["pkg.sub", "newpkg.s"], ["m", "mm"]], [["os.path", "ospath2"]], [["a", "aa.bb"]], [["keyword", "kw"]]]
+TMAPS = [[["pkg.sub", "newpkg.s"], ["m", "mm"]], [["os.path", "ospath2"]], [["a", "aa.bb"]], [["keyword", "kw"]],
+         [["pkg", "\u0928\u093e\u092e"]]]
 
 
 def gen_cases(ctx, n):
@@ -31,7 +32,9 @@ def gen_cases(ctx, n):
         k = i % 20
         kind = ("tidy" if k < 10 else "reformat" if k < 12 else "star" if k < 14 else "broken" if k < 16
                 else "transform" if k < 19 else "cli")
-        c = {"kind": kind, "stream": "layout", "i": i, "src": S.gen_layout_src(r), "db": r.choice(S.DBS),
+        uni = r.random() < .25                  # a quarter of the stream carries non-ASCII text and identifiers
+        c = {"kind": kind, "stream": "unicode" if uni else "layout", "i": i, "src": S.gen_layout_src(r, uni),
+             "db": r.choice(S.DBS + [S.DB_UNI] * 4) if uni else r.choice(S.DBS),
              "flags": S.gen_flags(r), "params": r.choice(S.PARAMS)}
         if kind == "transform":
             c["tmap"] = r.choice(TMAPS)
@@ -65,6 +68,9 @@ WITNESSES = [
     {"kind": "reformat", "w": "uniform", "src": "from __future__ import division\nimport IPython\nfrom PIL import X\nimport _a\n", "db": "", "flags": T,
      "params": {"separate_from_imports": False, "align_future": True}},
     {"kind": "tidy", "w": "F34b", "src": "class F:\n    d.x\n    (lambda b: {f for e in d})\nimport keyword as d\n", "db": "from m import d\n", "flags": T, "params": None},
+    {"kind": "tidy", "w": "utf8-3byte", "src": 's = "\u65e5\u672c\u8a9e"; import os; print(os, s)\n', "db": "", "flags": T, "params": None},
+    {"kind": "reformat", "w": "utf8-4byte", "src": 's = "\U0001f600"; import os, sys; print(os, s)  # \u201cq\u201d\n', "db": "", "flags": T, "params": None},
+    {"kind": "tidy", "w": "ident-marks", "src": "\u0928\u093e\u092e = 1\nparal\u00b7lel.x\nimport \u0e0a\u0e37\u0e48\u0e2d\n\u0e0a\u0e37\u0e48\u0e2d.y\n", "db": S.DB_UNI, "flags": T, "params": None},
     {"kind": "tidy", "w": "F16", "src": "import os.path\nprint(os.getcwd())\n", "db": "import os\n", "flags": T, "params": None},
     {"kind": "tidy", "w": "F34", "src": "from os import sep as b\ndef f():\n    return b\nfrom os import pardir as b\nprint(f())\n", "db": "", "flags": T, "params": None},
 ]
